@@ -36,6 +36,7 @@ func runC14(c *Ctx, r *Report) {
 	c14Tables(c, r, "C14.R8")
 	c14Siblings(c, r, "C14.R9")
 	c14Transport(c, r, "C14.R10")
+	c14Headers(c, r, "C14.R11")
 }
 
 // fieldAccesses returns for every function the struct fields it loads and stores.
@@ -199,7 +200,7 @@ func c14R2(c *Ctx, r *Report, rule string) {
 		}
 		switch e.Kind {
 		case "const", "string":
-			o := pkg.Scope().Lookup(e.Name)
+			o := scopeLookup(pkg, e.Name)
 			if o == nil {
 				r.bad(rule, e.Pkg, key, "-", "constant "+e.Name+" not found ("+e.Why+")")
 				continue
@@ -571,5 +572,43 @@ func c14R5(c *Ctx, r *Report, rule string) {
 				}
 			}
 		}
+	}
+}
+
+// c14Headers: the request the HTTP matcher builds from an HTTP/2 (prior knowledge) header block carries every
+// decoded field. Header fields may repeat (RFC 7540 8.1.2.5 cookie crumbs, several x-forwarded-for); they are
+// accumulated with Header.Add. Header.Set under a key taken from the decoded field keeps only the last value: a
+// header filter satisfied by an earlier value no longer matches although the HTTP/1.1 form of the request does.
+func c14Headers(c *Ctx, r *Report, rule string) {
+	r.rule(rule, "decoded header fields accumulate: in the HTTP matcher's package a (http.Header).Set inside a loop never uses a key taken from the data (only constant keys); the loop over the decoded HTTP/2 header fields adds each field with (http.Header).Add", 1)
+	adds := 0
+	for _, fn := range c.Funcs {
+		if !strings.HasPrefix(fname(fn), "modules/l4http.") {
+			continue
+		}
+		k := 0
+		for _, ci := range callsIn(fn) {
+			id := calleeID(ci)
+			if id != "(net/http.Header).Set" && id != "(net/http.Header).Add" {
+				continue
+			}
+			args := ci.Common().Args
+			if len(args) < 3 || !inLoop(ci.Block()) {
+				continue
+			}
+			if _, isConst := args[1].(*ssa.Const); isConst {
+				continue
+			}
+			k++
+			if id == "(net/http.Header).Add" {
+				adds++
+				r.ok(rule, fname(fn), fmt.Sprintf("header field#%d", k), c.ipos(ci), "added")
+				continue
+			}
+			r.bad(rule, fname(fn), fmt.Sprintf("header field#%d", k), c.ipos(ci), "a decoded header field is stored with Header.Set: of a repeated field only the last value survives, and a filter satisfied by an earlier value does not match a well-formed request")
+		}
+	}
+	if adds == 0 {
+		r.bad(rule, "modules/l4http", "fields are added", "-", "no loop adds decoded header fields to the request with Header.Add")
 	}
 }
